@@ -2,6 +2,7 @@
 `Quot.sound` may appear. -/
 import Gk.Props.C05
 import Gk.Props.C20live
+import Gk.Props.C20core
 open Gk
 #print axioms C05_liveInv_init
 #print axioms C05_liveInv_step_partial
@@ -31,3 +32,5 @@ open Gk
 #print axioms C20_recovery_idle_partial
 #print axioms C20_step_over_dispatchErr_now
 #print axioms C05_select_hook_fault_witness
+#print axioms C20_core_after_effect_recovers
+#print axioms C20_core_after_effect_unrepaired_strands
